@@ -99,6 +99,9 @@ type Stream struct {
 	origType        FrameType
 	startedAt       time.Time
 	headersFinished bool
+	// trailerBlock is set while a trailer block is still arriving: its HEADERS
+	// frame has been seen, and END_HEADERS is yet to come on a CONTINUATION.
+	trailerBlock bool
 }
 
 var streamPool = sync.Pool{
@@ -116,6 +119,7 @@ func NewStream(id uint32, win int32) *Stream {
 	strm.window = int64(win)
 	strm.state = StreamStateIdle
 	strm.headersFinished = false
+	strm.trailerBlock = false
 	strm.startedAt = time.Time{}
 	strm.previousHeaderBytes = strm.previousHeaderBytes[:0]
 	strm.ctx = nil
@@ -198,5 +202,5 @@ func (s *Stream) hasMoreToSend() bool {
 // CONTINUATION frames that finish it are still expected even though the stream
 // is half-closed (RFC 7540 6.2, 6.10).
 func (s *Stream) continuingHeaders(fr *FrameHeader) bool {
-	return fr.Type() == FrameContinuation && !s.headersFinished
+	return fr.Type() == FrameContinuation && (!s.headersFinished || s.trailerBlock)
 }
